@@ -91,6 +91,21 @@ class TraceJob:
         self.races = []
 
 
+def tsan_count(o):
+    """(reports with at least one stack frame in the library's sources, reports with frames in the harness only)"""
+    lib = harness = 0
+    for rep in o.split('WARNING: ThreadSanitizer')[1:]:
+        rep = rep.split('SUMMARY: ThreadSanitizer')[0]
+        frames = re.findall(r'^\s+#\d+ \S+ (\S+?):\d+', rep, re.M)
+        if any('/m4ri/' in f or f.startswith('m4ri/') for f in frames):
+            lib += 1
+        elif any('/harness/' in f for f in frames):
+            harness += 1  # no frame of the library anywhere in the report, only harness (and runtime) frames
+        else:
+            lib += 1      # unknown location: counted (conservative)
+    return lib, harness
+
+
 def run_driver(job, rundir, seed, tier, shard):
     out = os.path.join(rundir, '%s.%d.ndjson' % (job.label.replace('/', '_'), shard))
     cmd = [vh(job.cfg), 'drive', job.family, '--out', out, '--seed', str(seed), '--shard', '%d/%d' % (shard, job.shards),
@@ -105,13 +120,15 @@ def run_driver(job, rundir, seed, tier, shard):
     if rc != 0:
         raise Infra('driver %s shard %d exited %d:\n%s' % (job.label, shard, rc, o[-2000:]))
     if job.tsan:
-        n = o.count('WARNING: ThreadSanitizer')
+        n, nh = tsan_count(o)
+        if nh:
+            log('[tsan] WARNING: %d report(s) in %s lie entirely inside the harness (a defect of the harness, not counted)' % (nh, job.label))
         if n and not job.expect_races:
             # a report must repeat on one re-run before it is believed (DESIGN 7.2)
             rc2, o2 = sh(cmd, timeout=job.timeout, env=env)
             with open(out + '.driver.rerun.log', 'w') as f:
                 f.write(o2)
-            if o2.count('WARNING: ThreadSanitizer'):
+            if tsan_count(o2)[0]:
                 job.races.append((out + '.driver.log', n))
         elif job.expect_races:
             job.races.append((out + '.driver.log', n))
